@@ -86,7 +86,9 @@ func run(t *rapid.T, r *rec.Recorder) {
 
 	// balances of receiver around a receive, and of sender / relayer around an ack, are checked by
 	// wrapping the base actions.
+	m.UseCallback = true // incl. the callback contract that reverts until it is funded
 	acts := m.BaseActions()
+	acts["fundMoody"] = m.Wrap(m.ActFundMoody)
 	recvFresh := func(t *rapid.T) {
 		m.T = t
 		type snap struct{ u0, u1 *big.Int }
